@@ -447,3 +447,217 @@ Proof.
           by (apply existsb_exists; exists x; split; [exact Hx | now rewrite Hh]). congruence.
       * now right.
 Qed.
+
+(* ------------------------------------------------------------------------------------------
+   Why an evaluation has too few realizations, in terms of the failure masks (the readable
+   specification of [too_few]): thresholds, filters, estimators, NaN-intolerant methods.
+   ------------------------------------------------------------------------------------------ *)
+Theorem few_opt_spec c rs :
+  few_opt c rs = true <->
+  exists r, In r rs /\ (r_has r = false \/ (rmin c = 0 /\ allow_nan c = false /\ r_allf r = true)).
+Proof.
+  unfold few_opt, check_failures. rewrite existsb_exists. split.
+  - intros (r & Hin & H). exists r. split; [exact Hin|].
+    apply orb_true_iff in H as [H|H].
+    + left. now apply negb_true_iff in H.
+    + right. apply andb_true_iff in H as [H1 H3]. apply andb_true_iff in H1 as [H1 H2].
+      apply Nat.ltb_lt in H1. apply negb_true_iff in H2. repeat split; [lia | exact H2 | exact H3].
+  - intros (r & Hin & [H | (H1 & H2 & H3)]); exists r; (split; [exact Hin|]).
+    + rewrite H. reflexivity.
+    + rewrite H1, H2, H3. cbn. apply orb_true_r.
+Qed.
+
+Theorem few_eval_spec rs : few_eval rs = true <-> exists r, In r rs /\ r_has r = false.
+Proof.
+  unfold few_eval. rewrite existsb_exists. split; intros (r & Hin & H); exists r; (split; [exact Hin|]).
+  - now apply negb_true_iff in H.
+  - now rewrite H.
+Qed.
+
+(* the function part of one vector: which of the three too-few mechanisms fires, or the flags of the result *)
+Ltac fin := intros; first [reflexivity | assumption | discriminate | congruence | lia].
+
+Theorem fun_part_spec c fm :
+  match fun_part c fm with
+  | FFilter => filter_few (chosen c fm) = true
+  | FEst => filter_few (chosen c fm) = false /\ rmin c <= count_ok fm /\ all_failed fm = false /\
+            cest c = Stddev /\ nz c (chosen c fm) fm < min_stddev
+  | FRes h a ch =>
+      filter_few (chosen c fm) = false /\ ch = chosen c fm /\ a = all_failed fm /\
+      (h = true <-> rmin c <= count_ok fm) /\
+      (h = true -> a = false -> cest c = Stddev -> min_stddev <= nz c (chosen c fm) fm)
+  end.
+Proof.
+  unfold fun_part. destruct (filter_few (chosen c fm)) eqn:Ef; [reflexivity|].
+  destruct (Nat.leb_spec (rmin c) (count_ok fm)) as [Hle|Hlt].
+  - destruct (all_failed fm) eqn:Ea.
+    + repeat split; fin.
+    + destruct (cest c) eqn:Ec; cbn [is_stddev andb].
+      * repeat split; fin.
+      * destruct (Nat.ltb_spec (nz c (chosen c fm) fm) min_stddev) as [Hn|Hn]; repeat split; fin.
+  - repeat split; fin.
+Qed.
+
+Theorem grad_part_spec c fm pm ch :
+  let fg := failed_grad c fm pm in
+  match grad_part c fm pm ch with
+  | GEst => rmin c <= count_ok fg /\ cest c = Stddev /\ nz c ch fg < min_stddev
+  | GRes h a => a = all_failed fg /\ (h = true <-> rmin c <= count_ok fg) /\
+                (h = true -> cest c = Stddev -> min_stddev <= nz c ch fg)
+  end.
+Proof.
+  cbv zeta. unfold grad_part. destruct (Nat.leb_spec (rmin c) (count_ok (failed_grad c fm pm))) as [Hle|Hlt].
+  - destruct (cest c) eqn:Ec; cbn [is_stddev andb].
+    + repeat split; fin.
+    + destruct (Nat.ltb_spec (nz c ch (failed_grad c fm pm)) min_stddev) as [Hn|Hn]; repeat split; fin.
+  - repeat split; fin.
+Qed.
+
+(* a realization counts as failed for the gradient when its function value failed or fewer than
+   perturbation_min_success of its perturbations succeeded *)
+Lemma failed_grad_nth c fm pm r : r < nreal c ->
+  nth r (failed_grad c fm pm) true = failed_at fm r || (count_ok (nth r pm []) <? pmin c).
+Proof.
+  intros Hr. unfold failed_grad.
+  rewrite (nth_indep _ true (failed_at fm 0 || (count_ok (nth 0 pm []) <? pmin c))) by (rewrite map_length, seq_length; exact Hr).
+  rewrite (map_nth (fun r0 => failed_at fm r0 || (count_ok (nth r0 pm []) <? pmin c)) (seq 0 (nreal c)) 0 r).
+  now rewrite seq_nth.
+Qed.
+
+(* a function request for a single vector: the evaluation has too few realizations exactly when
+   (a) the realization filter leaves no successful realization with a positive weight, or
+   (b) fewer than realization_min_success realizations succeeded, or
+   (c) the stddev estimator is left with fewer than two realizations, or
+   (d) realization_min_success = 0, the method does not accept NaN and every realization failed *)
+Theorem too_few_function_request c r ca fm pm :
+  rk r = KF -> flt r = FMasks [fm] pm ->
+  ((exists rs, too_few c r ca rs) <->
+   filter_few (chosen c fm) = true \/
+   (filter_few (chosen c fm) = false /\
+    (count_ok fm < rmin c \/
+     (rmin c <= count_ok fm /\ all_failed fm = false /\ cest c = Stddev /\ nz c (chosen c fm) fm < min_stddev) \/
+     (rmin c = 0 /\ allow_nan c = false /\ all_failed fm = true)))).
+Proof.
+  intros Hk Hf.
+  assert (He : eval_req c r ca = eval_F c (pt r) [fm]) by (unfold eval_req; now rewrite Hf, Hk).
+  pose proof (fun_part_spec c fm) as Hs.
+  unfold eval_F in He. cbn [eval_vectors] in He.
+  destruct (fun_part c fm) as [| |h a ch] eqn:Efp.
+  - (* filter *) split.
+    + intros _. now left.
+    + intros _. eexists. econstructor 1. exact He.
+  - (* estimator *) destruct Hs as (H0 & H1 & H2 & H3 & H4). split.
+    + intros _. right. split; [exact H0|]. right; left. repeat split; assumption.
+    + intros _. eexists. econstructor 1. exact He.
+  - destruct Hs as (H0 & -> & -> & Hh & Hst). cbn [map hd length] in He. split.
+    + intros (rs & Ht). right. split; [exact H0|].
+      destruct Ht as [d rs' He' | rs' n ca' He' Hfew]; rewrite He in He'; [discriminate|].
+      injection He' as <- _ _. apply few_opt_spec in Hfew as (x & [<-|[]] & Hx). cbn in Hx.
+      destruct Hx as [Hx | (Hx1 & Hx2 & Hx3)].
+      * left. destruct (Nat.le_gt_cases (rmin c) (count_ok fm)) as [Hle|Hgt]; [|exact Hgt].
+        apply Hh in Hle. congruence.
+      * right; right. repeat split; assumption.
+    + intros [Hc|(_ & [Hlt | [(H1 & H2 & H3 & H4) | (H1 & H2 & H3)]])].
+      * congruence.
+      * eexists. econstructor 2; [exact He|]. apply few_opt_spec. eexists. split; [now left|]. left. cbn.
+        destruct h; [|reflexivity]. assert (rmin c <= count_ok fm) by now apply Hh. lia.
+      * exfalso. assert (Hht : h = true) by now apply Hh. specialize (Hst Hht H2 H3). lia.
+      * eexists. econstructor 2; [exact He|]. apply few_opt_spec. eexists. split; [now left|]. right. cbn. auto.
+Qed.
+
+(* a gradient-only request at the cached point (what every SciPy back-end issues after the function request):
+   too few exactly when, counting a realization as failed if its function value failed or fewer than
+   perturbation_min_success of its perturbations succeeded,
+   (a) fewer than realization_min_success realizations are left, or
+   (b) the stddev estimator is left with fewer than two, or
+   (c) realization_min_success = 0, the method does not accept NaN and no realization is left *)
+Theorem too_few_gradient_request c r p cfm cch fms pm :
+  rk r = KG -> flt r = FMasks fms pm -> p = pt r ->
+  let fg := failed_grad c cfm pm in
+  ((exists rs, too_few c r (Some (p, cfm, cch)) rs) <->
+   count_ok fg < rmin c \/
+   (rmin c <= count_ok fg /\ cest c = Stddev /\ nz c cch fg < min_stddev) \/
+   (rmin c = 0 /\ allow_nan c = false /\ all_failed fg = true)).
+Proof.
+  intros Hk Hf -> fg.
+  assert (He : eval_req c r (Some (pt r, cfm, cch)) = eval_G_cached c (Some (pt r, cfm, cch)) cfm cch pm)
+    by (unfold eval_req; now rewrite Hf, Hk, Nat.eqb_refl).
+  pose proof (grad_part_spec c cfm pm cch) as Hs. cbv zeta in Hs. fold fg in Hs.
+  unfold eval_G_cached in He. destruct (grad_part c cfm pm cch) as [|h a] eqn:Eg.
+  - destruct Hs as (H1 & H2 & H3). split.
+    + intros _. right; left. repeat split; assumption.
+    + intros _. eexists. econstructor 1. exact He.
+  - destruct Hs as (-> & Hh & Hst). split.
+    + intros (rs & Ht). destruct Ht as [d rs' He' | rs' n ca' He' Hfew]; rewrite He in He'; [discriminate|].
+      injection He' as <- _ _. apply few_opt_spec in Hfew as (x & [<-|[]] & Hx). cbn in Hx.
+      destruct Hx as [Hx | (Hx1 & Hx2 & Hx3)].
+      * left. destruct (Nat.le_gt_cases (rmin c) (count_ok fg)) as [Hle|Hgt]; [|exact Hgt].
+        apply Hh in Hle. congruence.
+      * right; right. repeat split; assumption.
+    + intros [Hlt | [(H1 & H2 & H3) | (H1 & H2 & H3)]].
+      * eexists. econstructor 2; [exact He|]. apply few_opt_spec. eexists. split; [now left|]. left. cbn.
+        destruct h; [|reflexivity]. assert (rmin c <= count_ok fg) by now apply Hh. lia.
+      * exfalso. assert (Hht : h = true) by now apply Hh. specialize (Hst Hht H2). lia.
+      * eexists. econstructor 2; [exact He|]. apply few_opt_spec. eexists. split; [now left|]. right. cbn. auto.
+Qed.
+
+(* ------------------------------------------------------------------------------------------
+   Nested optimizations (the tree machine).
+   ------------------------------------------------------------------------------------------ *)
+Lemma has_result_app a b : has_result (a ++ b) = has_result a || has_result b.
+Proof. unfold has_result. apply existsb_app. Qed.
+
+Lemma flat_tr_TE e : flat_tr (map TE e) = e.
+Proof. unfold flat_tr. induction e as [|x t IH]; [reflexivity|]. cbn. now rewrite IH. Qed.
+
+(* a step without nested optimization is the plain machine [run], whatever the nested runs would do *)
+Theorem run_items_leaf rec c : forall script n ca hs own,
+  run_items rec c (map (fun r => (r, None)) script) n ca hs own =
+  (let '(o, d, e, _) := run c script n ca in (o, d, map TE e, (hs, own || has_result d))).
+Proof.
+  induction script as [|r t IH]; intros n ca hs own; cbn [map run_items run].
+  - now rewrite orb_false_r.
+  - destruct (over_budget c n); [now rewrite orb_false_r|].
+    destruct (eval_req c r ca) as [| |dc rs|rs m ca1]; cbn [app map].
+    + now rewrite orb_false_r.
+    + now rewrite orb_false_r.
+    + reflexivity.
+    + destruct (few_opt c rs); [reflexivity|].
+      rewrite IH. destruct (run c t (n + m) ca1) as [[[o d] e] k]. cbn [app map].
+      now rewrite has_result_app, orb_assoc.
+Qed.
+
+Theorem tree_step_leaf c script hs : tree_step (leaf c script) hs = run_optimizer_step c script.
+Proof.
+  unfold tree_step, leaf, run_optimizer_step. cbn [run_tree]. rewrite run_items_leaf.
+  destruct (run c script 0 None) as [[[o d] e] k]. now rewrite flat_tr_TE.
+Qed.
+
+(* a request of a step with a nested optimization: the budget is checked before the nested run starts;
+   an exception of the nested run passes through; a nested USER_ABORT wins over everything else, in
+   particular over "no result"; a nested run that ended otherwise but has left the tracker empty gives
+   NESTED_OPTIMIZER_FAILED; otherwise the request is evaluated as without nesting *)
+Theorem run_items_nested rec c r st rest n ca hs own io id itr hst iown :
+  rec st (tl hs) = (io, id, itr, (hst, iown)) ->
+  let h := hd false hs || iown in
+  run_items rec c ((r, Some st) :: rest) n ca hs own =
+  if over_budget c n then (Exit MaxFunctions, [], [], (hs, own)) else
+  match io with
+  | Raise => (Raise, id, [TInner io itr], (h :: hst, own))
+  | Exit UserAbort => (Exit UserAbort, id, [TInner io itr], (h :: hst, own))
+  | Exit _ =>
+      if h then
+        let '(o, d, e, s') := run_items rec c ((r, None) :: rest) n ca (h :: hst) own in
+        (o, id ++ d, TInner io itr :: e, s')
+      else (Exit NestedFailed, id, [TInner io itr], (h :: hst, own))
+  end.
+Proof.
+  intros Hrec h. cbn [run_items]. rewrite Hrec. fold h.
+  destruct (over_budget c n) eqn:Eb; [reflexivity|].
+  destruct io as [x|]; [|reflexivity].
+  destruct x; cbn [nested_verdict]; try reflexivity; destruct h; try reflexivity;
+    (destruct (eval_req c r ca) as [| |dc rs|rs m ca1]; cbn [app]; rewrite ?app_nil_r; try reflexivity;
+     match goal with |- context [few_opt c ?q] => destruct (few_opt c q) end; [reflexivity|];
+     match goal with |- context [run_items rec c rest ?a ?b ?d ?e] =>
+       destruct (run_items rec c rest a b d e) as [[[o d'] e'] s'] end; reflexivity).
+Qed.
